@@ -2,12 +2,48 @@ import Genshi.Wire
 import Genshi.Model.PyXform
 import Genshi.Model.PyUnxf
 import Genshi.Model.PyLex
+import Genshi.Model.PyLookupObj
 import Driver.PyWire
 namespace Driver.C03
 open Genshi Genshi.Py Genshi.Sexp Driver.PyWire
 
+def pairs? (f : Sexp → Option α) : Sexp → Option (List (Str × α))
+  | .list xs => xs.mapM fun
+      | .list [.str k, v] => do pure (k, ← f v)
+      | _ => none
+  | _ => none
+
+def optNat? : Sexp → Option (Option Nat)
+  | .atom "N" => some none
+  | x => do pure (some (← x.toNat?))
+
+/-- `(obj attrs cls items)` of `Model/PyLookupObj.lean` -/
+def decObj : Sexp → Option Obj.OV
+  | .list [.atom "obj", attrs, cls, items] => do
+      let its ← (match items with
+        | .atom "N" => some none
+        | x => do pure (some (← pairs? Sexp.toNat? x)))
+      pure (.obj (← pairs? Sexp.toNat? attrs) (← pairs? optNat? cls) its)
+  | _ => none
+
+def decKey : Sexp → Option Obj.OV
+  | .str s => some (.str s)
+  | x => do pure (.val (← x.toNat?))
+
+def encRes : Except Obj.OE Obj.OV → Sexp
+  | .ok (.val n) => .list [.atom "ok", ofNat n]
+  | .ok (.undef k) => .list [.atom "undefined", .str k]
+  | .ok _ => .list [.atom "ok", .atom "other"]
+  | .error .attributeError => .list [.atom "err", .str "AttributeError".toList]
+  | .error .keyError => .list [.atom "err", .str "KeyError".toList]
+  | .error .typeError => .list [.atom "err", .str "TypeError".toList]
+  | .error .indexError => .list [.atom "err", .str "IndexError".toList]
+  | .error (.undefinedError _) => .list [.atom "err", .str "UndefinedError".toList]
+  | .error .other => .list [.atom "err", .str "other".toList]
+
 /-- `xform tree`: the tree after `ExpressionASTTransformer` (`unmodelled` outside the modelled syntax);
     `unxf tree`: the rewriting undone;
+    `lookup attr|item strict obj key`: the lookup rules on a concrete record-like object;
     `lex text`: the chunks of `interpolation.lex` as `(T|F text)` pairs, `err`, or `unmodelled` -/
 def handle : List Sexp → Option Sexp
   | [.atom "xform", t] =>
@@ -18,6 +54,15 @@ def handle : List Sexp → Option Sexp
       match decE t with
       | none => some (.atom "unmodelled")
       | some e => some (.list [.atom "ok", encE (unxf e)])
+  | [.atom "lookup", .atom which, strict, o, k] =>
+      match decObj o, decKey k, strict.toBool? with
+      | some obj, some key, some st =>
+          if which = "attr" then
+            match key with
+            | .str s => some (encRes (Obj.attrOf st obj s))
+            | _ => some (.atom "unmodelled")
+          else some (encRes (Obj.itemOf st obj key))
+      | _, _, _ => some (.atom "unmodelled")
   | [.atom "lex", .str text] =>
       if Lex.unmodelled text then some (.atom "unmodelled") else
       match Lex.lex text with
